@@ -109,6 +109,15 @@ def gen_cases(rng, n):
     cases = []
 
     def add(expr, expect, cls):
+        # curly brackets are the documented alternative to round ones (`MAX{size}`): a fifth of the calls are written with them
+        if cls != "wrong" and rng.random() < 0.2 and not any(c in expr for c in "{}") and expr.count("(") == expr.count(")"):
+            inq = False
+            out = []
+            for ch in expr:
+                if ch == "'":
+                    inq = not inq
+                out.append({"(": "{", ")": "}"}.get(ch, ch) if not inq else ch)
+            expr = "".join(out)
         cases.append(Case(expr, expect, cls))
 
     for _ in range(n):
